@@ -75,14 +75,41 @@ def kinetic(rng, N, dens, conserving=True, den=4):
     return K
 
 
+def batched_khi(rng, N, dens, shape, ax, conserving=True, p_batch=0.5, kin=None):
+    """kinetic-matrix array in the layout documented by exchange_matrix: batch axes (a left-aligned prefix of `shape`,
+    each either the full size or 1) with the compartment axis at `ax`, plus the trailing compartment axis.
+    Every member conserves `dens`; with conserving=False exactly one member does not."""
+    kin = kin or (lambda cons: kinetic(rng, N, dens, cons))
+    nk = rng.randint(ax + 1, len(shape))
+    kshape = [N if d == ax else (shape[d] if rng.random() < p_batch else 1) for d in range(nk)]
+    big = [d for d in range(len(shape)) if d != ax and shape[d] > 1]
+    if big and all(kshape[d] == 1 for d in range(nk) if d != ax):
+        d = rng.choice(big)               # at least one genuine batch axis whenever the shape has one
+        kshape += [1] * (d + 1 - nk)
+        nk = len(kshape)
+        kshape[d] = shape[d]
+    khi = np.zeros(kshape + [N])
+    idxs = list(itertools.product(*[range(kshape[d]) for d in range(nk) if d != ax]))
+    badi = rng.randrange(len(idxs)) if not conserving else -1
+    for n, b in enumerate(idxs):
+        K = kin(n != badi)
+        for i in range(N):
+            khi[b[:ax] + (i,) + b[ax:]] = K[i]
+    return khi
+
+
+class ShapeDefect(Exception):
+    pass
+
+
 # ---------------------------------------------------------------- (a1) X._apply with injected mat
 def gen_apply_case(rng):
     import epgpy as epg
     from epgpy import exchange as ex
-    ndim_op = rng.choice([1, 1, 2, 2, 3])
+    ndim_op = rng.choice([1, 2, 2, 3, 3])
     ax = rng.randrange(ndim_op)
     N = rng.choice([2, 2, 3])
-    opshape = [rng.choice([1, 2, 3]) for _ in range(ndim_op)]
+    opshape = [rng.choice([1, 2, 3, 3]) for _ in range(ndim_op)]
     opshape[ax] = N
     while np.prod(opshape) > 12:
         opshape[rng.choice([d for d in range(ndim_op) if d != ax])] = 1
@@ -100,11 +127,15 @@ def gen_apply_case(rng):
     d0 = rng.choice([0.5, 1.0, 2.0])
     dens = [d0] * N if equal_dens else [rng.choice([0.5, 1.0, 2.0, 4.0]) for _ in range(N)]
     conserving = rng.random() < 0.8
-    K = kinetic(rng, N, dens, conserving)
     tau_shape = list(opshape)
     tau_shape[ax] = 1
     tau = np.full(tau_shape, 1.0) if ndim_op > 1 else 1.0
-    khi = K[(None,) * ax]
+    if rng.random() < 0.65:
+        # batched kinetic matrix: exchange axis first / in the middle / last, fewer axes than the operator
+        khi = batched_khi(rng, N, dens, opshape, ax, conserving)
+    else:
+        khi = kinetic(rng, N, dens, conserving)[(None,) * ax]
+    K = khi
     ns = rng.choice([1, 3])
     return {"kind": "apply", "ax": ax, "N": N, "opshape": opshape, "smshape": smshape, "dens": dens, "K": K.tolist(),
             "khi_shape": list(khi.shape), "tau_shape": tau_shape if ndim_op > 1 else [], "ns": ns,
@@ -120,7 +151,8 @@ def run_apply_case(c):
     khi = np.array(c["K"]).reshape(c["khi_shape"])
     tau = np.ones(c["tau_shape"]) if c["tau_shape"] else 1.0
     op = ex.X(tau, khi, axis=ax)
-    assert list(op.shape) == c["opshape"], (op.shape, c["opshape"])
+    if list(op.shape) != c["opshape"]:
+        raise ShapeDefect("operator shape %s, expected the left-aligned broadcast of tau and the khi batch axes %s" % (tuple(op.shape), tuple(c["opshape"])))
     mat = dyarr(rng, op.mat.shape)
     op.mat = mat
     smshape = tuple(c["smshape"])
@@ -147,6 +179,42 @@ def run_apply_case(c):
     return op, pre, code, oshape, obs, mat
 
 
+def apply_oracle(c):
+    """spec side of the X._apply correspondence, in numpy, fibre by fibre: guard (khi . density = 0 for every member of the
+    batch) and mat . (states - equilibrium) + equilibrium.  Returns None or a description of the failing input."""
+    op, pre, code, oshape, obs, mat = run_apply_case(c)
+    ax, N = op.axis, c["N"]
+    khi = np.asarray(op.khi, float)
+    shp = list(np.broadcast_shapes(*[tuple(reversed(x)) for x in (khi.shape[:-1], tuple(pre["shape"]), tuple(op.shape))]))[::-1]
+    shp[ax] = N
+    bad = False
+    for b in itertools.product(*[range(d) for i, d in enumerate(shp) if i != ax]):
+        full = lambda i: b[:ax] + (i,) + b[ax:]
+        K = np.array([[float(lget(khi[..., j], full(i))) for j in range(N)] for i in range(N)])
+        d = np.array([float(lget(pre["dens"], full(i))) for i in range(N)])
+        if np.abs(K @ d).max() > 1e-8:
+            bad = True
+    if bad and code == 0:
+        return "a kinetic matrix (batch member) with khi . density != 0 is accepted by X._apply"
+    if not bad and code == 1:
+        return "a conserving kinetic matrix is rejected by X._apply"
+    if code != 0:
+        return None
+    if list(oshape) != shp:
+        return "result shape %s, expected the broadcast %s" % (tuple(oshape), tuple(shp))
+    eq = np.broadcast_to(pre["eq"], pre["st"].shape)
+    for b in itertools.product(*[range(d) for i, d in enumerate(shp) if i != ax]):
+        full = lambda i: b[:ax] + (i,) + b[ax:]
+        st = np.array([lget(pre["st"], full(i)) for i in range(N)])
+        e = np.array([lget(eq, full(i)) for i in range(N)])
+        M = np.array([[lget(mat, (b[:ax] + (i, j) + b[ax:])[:mat.ndim - 1]) for j in range(N)] for i in range(N)])     # (i, j, 3)
+        ref = np.einsum("ijc,jkc->ikc", M, st - e) + e
+        got = np.array([obs[full(i)] for i in range(N)])
+        if np.abs(ref - got).max() > 0:
+            return "X._apply with matrix M differs from M (states - equilibrium) + equilibrium at batch index %s by %.3g" % (b, np.abs(ref - got).max())
+    return None
+
+
 def apply_term(c, op, pre, code, oshape, obs, mat):
     o = "(mkX QIops %d %s %s %s)" % (op.axis, nlist(op.shape), qlist(mat), arr(np.asarray(op.khi, float)))
     s = "(mkSMN QIops %s %d %s %s %s)" % (nlist(pre["shape"]), pre["st"].shape[-2], qlist(pre["st"]), arr(pre["eq"]), qlist(pre["dens"]))
@@ -155,17 +223,17 @@ def apply_term(c, op, pre, code, oshape, obs, mat):
 
 # ---------------------------------------------------------------- (a2) generators (expm := identity)
 def gen_generator_case(rng):
-    ndim = rng.choice([1, 2, 2, 3])
+    ndim = rng.choice([1, 2, 2, 3, 3])
     ax = rng.randrange(ndim)
     N = rng.choice([2, 2, 3])
-    shape = [rng.choice([1, 2]) for _ in range(ndim)]
+    shape = [rng.choice([1, 2, 2, 3]) for _ in range(ndim)]
     shape[ax] = N
+    while np.prod(shape) > 12:
+        shape[rng.choice([d for d in range(ndim) if d != ax])] -= 1
     dens = [rng.choice([0.5, 1.0, 2.0]) for _ in range(N)]
     K = kinetic(rng, N, dens, True)
-    batched_khi = (ax == ndim - 1 and ndim == 2 and rng.random() < 0.4)
-    if batched_khi:
-        B = shape[0] = 2
-        khi = np.stack([kinetic(rng, N, dens, True) for _ in range(B)])
+    if rng.random() < 0.65:
+        khi = batched_khi(rng, N, dens, shape, ax, True, p_batch=0.7)
     else:
         khi = K[(None,) * ax]
 
@@ -403,9 +471,9 @@ def ref_apply(st, eq, K, T1, T2, g, tau):
 
 def gen_real_case(rng):
     N = rng.choice([2, 2, 3])
-    ndim = rng.choice([1, 2, 2, 3])
+    ndim = rng.choice([1, 2, 2, 3, 3])
     ax = rng.randrange(ndim)
-    smshape = [rng.choice([1, 2, 3]) for _ in range(ndim)]
+    smshape = [rng.choice([1, 2, 3, 3]) for _ in range(ndim)]
     smshape[ax] = N
     dens = [rng.choice([0.5, 1.0, 2.0, 3.0]) for _ in range(N)]
     scalar_khi = N == 2 and rng.random() < 0.4
@@ -421,6 +489,21 @@ def gen_real_case(rng):
         K[np.arange(N), np.arange(N)] = 0
         K[np.arange(N), np.arange(N)] = -K.sum(0)
 
+    khi = None
+    if not scalar_khi and rng.random() < 0.6:
+        # batched kinetic matrix in any documented layout (exchange axis first / middle / last, fewer axes than tau)
+        def kin(_):
+            W = np.zeros((N, N))
+            for i in range(N):
+                for j in range(i + 1, N):
+                    W[i, j] = W[j, i] = rng.choice([0, 0.01, 0.05, 0.2, 0.4])
+            Kb = -W / np.array(dens)[None, :]
+            Kb[np.arange(N), np.arange(N)] = -Kb.sum(0)
+            return Kb
+        khi = batched_khi(rng, N, dens, smshape, ax, True, p_batch=0.8, kin=kin).tolist()
+    # the state may have one batch axis more than the operator
+    stshape = list(smshape) + ([2] if rng.random() < 0.3 else [])
+
     def par(vals, none_p=0.3):
         r = rng.random()
         if r < none_p:
@@ -434,27 +517,36 @@ def gen_real_case(rng):
     tshape[ax] = 1
     tau = rng.choice([0.0, 1.0, 3.0, 8.0]) if rng.random() < 0.6 else \
         np.array([rng.choice([0.0, 0.5, 2.0, 5.0]) for _ in range(int(np.prod(tshape)))]).reshape(tshape).tolist()
-    return {"kind": "real", "N": N, "ax": ax, "smshape": smshape, "dens": dens, "K": K.tolist(), "scalar_khi": scalar_khi,
+    return {"kind": "real", "N": N, "ax": ax, "smshape": smshape, "stshape": stshape, "khi": khi, "dens": dens, "K": K.tolist(), "scalar_khi": scalar_khi,
             "tau": tau, "T1": par([300.0, 1000.0, float("inf")]), "T2": par([20.0, 80.0, float("inf")]),
             "g": par([0.0, 0.01, -0.03], 0.4), "seq": rng.choice(["plain", "plain", "rf", "rf_shift"]),
             "seed": rng.randrange(1 << 30)}
 
 
+def real_khi(c):
+    """the kinetic-matrix array handed to X: batch axes with the compartment axis at ax, then the compartment axis"""
+    if c.get("khi") is not None:
+        return np.array(c["khi"], float)
+    return np.array(c["K"], float)[(None,) * c["ax"]]
+
+
+def fibre_K(c, full):
+    khi, N = real_khi(c), c["N"]
+    return np.array([[float(lget(khi[..., j], full(i))) for j in range(N)] for i in range(N)])
+
+
 def build_real(c, scale_tau=1.0, zero_k=False):
     from epgpy import exchange as ex
     ax, N = c["ax"], c["N"]
-    K = np.array(c["K"]) * (0.0 if zero_k else 1.0)
     tau = np.asarray(c["tau"], float) * scale_tau
-    if c["scalar_khi"] and ax == len(c["smshape"]) - 1 and False:
-        khi = K[0, 0]
-    khi = K[(None,) * ax]
+    khi = real_khi(c) * (0.0 if zero_k else 1.0)
     return ex.X(tau if tau.ndim else float(tau), khi, axis=ax, T1=c["T1"], T2=c["T2"], g=c["g"])
 
 
 def real_state(c):
     import epgpy as epg
     rs = np.random.default_rng(c["seed"])
-    smshape = tuple(c["smshape"])
+    smshape = tuple(c.get("stshape") or c["smshape"])
     ax, N = c["ax"], c["N"]
     dens = np.ones(smshape) * np.array(c["dens"]).reshape([N if d == ax else 1 for d in range(len(smshape))])
     sm = epg.StateMatrix(density=dens)
@@ -474,7 +566,7 @@ def real_state(c):
 
 def fibres(c, arrs):
     """iterate over batch indices: yield (index tuple function, per-array fibre lists)"""
-    smshape, ax, N = c["smshape"], c["ax"], c["N"]
+    smshape, ax, N = (c.get("stshape") or c["smshape"]), c["ax"], c["N"]
     for b in itertools.product(*[range(d) for i, d in enumerate(smshape) if i != ax]):
         yield b, (lambda i, b=b: b[:ax] + (i,) + b[ax:])
 
@@ -488,7 +580,8 @@ def check_real_case(ctx, c):
     out = op(sm)
     o = np.array(out.states)
     eqa = np.broadcast_to(np.array(sm.equilibrium), np.array(sm.states).shape)
-    K = np.array(c["K"])
+    import epgpy as epg
+    from epgpy import exchange as ex
 
     def par(p, dflt, full):
         if p is None:
@@ -500,16 +593,21 @@ def check_real_case(ctx, c):
         stf = np.array([np.array(sm.states)[full(i)] for i in range(N)])
         eqf = np.array([eqa[full(i)] for i in range(N)])
         got = np.array([o[full(i)] for i in range(N)])
+        K = fibre_K(c, full)
         # ODE solution by an independent integrator (scaling-and-squaring Taylor)
         ref = ref_apply(stf, eqf, K, t1, t2, gg, ta)
         if np.abs(ref - got).max() > tol(ref):
             return ("X(tau) differs from the Bloch-McConnell solution by %.3g" % np.abs(ref - got).max(), "ode")
+        # vectorised run == scalar run of this fibre (plain N x N matrix, scalar tau, per-compartment T1/T2/g)
+        one = epg.StateMatrix(stf, density=[float(np.asarray(sm.density)[full(i)]) for i in range(N)], check=False)
+        sc = np.array(ex.X(ta, K, T1=t1.tolist(), T2=t2.tolist(), g=gg.tolist())(one).states)
+        if np.abs(sc - got).max() > tol(sc):
+            return ("batched X differs from the scalar run of one fibre by %.3g" % np.abs(sc - got).max(), "scalar_run")
         # conservation without relaxation
         if c["T1"] is None and c["T2"] is None and c["g"] is None:
             if np.abs(got.sum(0) - stf.sum(0)).max() > tol(stf):
                 return ("total magnetisation not conserved without relaxation", "conservation")
     # fixed point
-    import epgpy as epg
     smeq = epg.StateMatrix(np.array(np.broadcast_to(sm.equilibrium, np.array(sm.states).shape)), density=sm.density, check=False)
     fx = np.array(op(smeq).states)
     if np.abs(fx - np.array(smeq.states)).max() > 1e-9 * (1 + np.abs(fx).max()):
@@ -531,6 +629,7 @@ def check_real_case(ctx, c):
             d = np.array([(dp[full(i)] - dm[full(i)]) / (2 * h * ta) for i in range(N)])
             M = np.array([o[full(i)] for i in range(N)])
             eqf = np.array([eqa[full(i)] for i in range(N)])
+            K = fibre_K(c, full)
             XT = -K + np.diag(-1 / t2 + 2j * np.pi * gg)
             XL = -K + np.diag(-1 / t1)
             rhs = np.empty_like(M)
@@ -554,47 +653,62 @@ def check_real_case(ctx, c):
 
 # ---------------------------------------------------------------- boundary probes (configurations of the quantifier)
 def boundary_probes(ctx):
-    """batched kinetic matrices / positions of the exchange axis that the statement quantifies over"""
+    """batched kinetic matrices / positions of the exchange axis that the statement quantifies over: every layout is
+    JUDGED against the Bloch-McConnell integrator and against scalar runs of each fibre (regressions of ce28d2e
+    and any other wrong layout are failing inputs)"""
     import epgpy as epg
     from epgpy import exchange as ex
-    probes = []
     k3 = [0.1, 0.2, 0.3]
-    probes.append(("batched khi (2,3,2), exchange axis 0 (not the last batch axis)", {"khi_axis": 0, "rates": k3, "smshape": (2, 3), "tau": 2.0},
-                   {"site": "exchange_operator", "why": "khi-axis-not-moved"}))
-    probes.append(("batched khi (2,2,2), exchange axis 0: silently wrong numbers", {"khi_axis": 0, "rates": [0.1, 0.2], "smshape": (2, 2), "tau": 2.0},
-                   {"site": "exchange_operator", "why": "khi-axis-not-moved"}))
-    probes.append(("batched khi (3,2,2) axis 1 with tau batched on a further axis", {"khi_axis": 1, "rates": k3, "smshape": (3, 2, 4), "tau": [[[1.0, 2.0, 3.0, 4.0]]]},
-                   {"site": "exchange_operator", "why": "khi-expanded-in-front"}))
-    probes.append(("batched khi (3,2,2) axis 1 applied to a state with a further batch axis", {"khi_axis": 1, "rates": k3, "smshape": (3, 2, 4), "tau": 2.0},
-                   {"site": "X._apply", "why": "conservation-check-broadcast"}))
-    n = 0
-    for what, p, sig in probes:
-        n += 1
+    k34 = (np.arange(1, 13).reshape(3, 4) / 20).tolist()
+    S1 = {"site": "exchange_operator", "why": "khi-axis-not-moved"}
+    S2 = {"site": "exchange_operator", "why": "khi-expanded-in-front"}
+    S3 = {"site": "X._apply", "why": "conservation-check-broadcast"}
+    S4 = {"site": "exchange_operator", "why": "batched-khi-layout"}
+    # (what, exchange axis, rates (batch of exchange_matrix), state shape, tau, T2, signature)
+    probes = [
+        ("batched khi (2,3,2), exchange axis 0 (not the last batch axis)", 0, k3, (2, 3), 2.0, None, S1),
+        ("batched khi (2,2,2), exchange axis 0 (was: silently wrong numbers)", 0, [0.1, 0.2], (2, 2), 2.0, None, S1),
+        ("batched khi (3,2,2) axis 1 with tau batched on a further axis", 1, k3, (3, 2, 4), [[[1.0, 2.0, 3.0, 4.0]]], None, S2),
+        ("batched khi (3,2,2) axis 1 applied to a state with a further batch axis", 1, k3, (3, 2, 4), 2.0, None, S3),
+        ("batched khi (2,3,2) axis 0 applied to a state with a further batch axis", 0, k3, (2, 3, 2), 2.0, None, S3),
+        ("batched khi (3,2,4,2), exchange axis in the middle", 1, k34, (3, 2, 4), 1.5, None, S4),
+        ("batched khi (3,2,4,2), exchange axis in the middle, T2 per compartment and batch", 1, k34, (3, 2, 4), 1.5,
+         [[[30.0], [50.0]], [[20.0], [80.0]], [[40.0], [10.0]]], S4),
+        ("batched khi (2,3,2) axis 0 with tau on a further axis (khi has fewer axes than tau)", 0, k3, (2, 3, 2), [[[1.0, 3.0]]], None, S2),
+        ("plain khi (2,2) axis 0 with tau shaped (1,3,2)", 0, 0.3, (2, 3, 2), (np.arange(1, 7).reshape(1, 3, 2) * 1.0).tolist(), None, S2),
+        ("batched khi (2,3,2) axis 0 applied to a single-compartment state (1,3)", 0, k3, (1, 3), 2.0, None, S3),
+        ("batched khi (3,2,1,2) axis 1 (unit batch axis) with tau (1,1,4)", 1, [[0.1], [0.2], [0.3]], (3, 2, 4), [[[1.0, 2.0, 3.0, 4.0]]], None, S4),
+    ]
+    for what, ax, rates, shp, tau, T2, sig in probes:
         ctx.count(("probe", what), nontrivial=True)
-        ax = p["khi_axis"]
-        khi = ex.exchange_matrix(p["rates"], axis=ax)
+        p = {"what": what, "khi_axis": ax, "rates": rates, "smshape": list(shp), "tau": tau, "T2": T2}
+        khi = ex.exchange_matrix(rates, axis=ax) if np.ndim(rates) else ex.exchange_matrix(rates)
         rs = np.random.default_rng(5)
-        shp = tuple(p["smshape"])
-        st = rs.normal(size=shp + (1, 3)) + 0j
+        st = rs.normal(size=tuple(shp) + (1, 3)) + 0j
         sm = epg.StateMatrix(st, density=1.0, check=False)
         try:
-            o = np.array(ex.X(p["tau"], khi, axis=ax)(sm).states)
+            o = np.array(ex.X(tau, khi, axis=ax, T2=T2)(sm).states)
         except Exception as e:
-            ctx.report("%s: valid input raises %s: %s" % (what, type(e).__name__, str(e)[:120]), {"probe": dict(p, what=what)},
-                       found_input=True, signature=sig)
+            ctx.report("%s: valid input raises %s: %s" % (what, type(e).__name__, str(e)[:120]), {"probe": p}, found_input=True, signature=sig)
             continue
-        # reference per fibre
-        err = 0.0
-        for b in itertools.product(*[range(d) for i, d in enumerate(shp) if i != ax]):
+        err = err2 = 0.0
+        oshape = o.shape[:-2]
+        for b in itertools.product(*[range(d) for i, d in enumerate(oshape) if i != ax]):
             full = lambda i: b[:ax] + (i,) + b[ax:]
-            rate = p["rates"][b[0]]
-            ta = float(lget(np.asarray(p["tau"], float), full(0))) if np.ndim(p["tau"]) else float(p["tau"])
-            stf = np.array([st[full(i)] for i in range(2)])
-            ref = ref_apply(stf, np.zeros_like(stf) + np.array([0, 0, 1.0]), rate * np.array([[1, -1], [-1, 1.0]]), [np.inf] * 2, [np.inf] * 2, [0, 0], ta)
-            err = max(err, np.abs(ref - np.array([o[full(i)] for i in range(2)])).max())
+            rate = float(lget(np.asarray(rates, float), b)) if np.ndim(rates) else float(rates)
+            ta = float(lget(np.asarray(tau, float), full(0))) if np.ndim(tau) else float(tau)
+            t2 = [np.inf] * 2 if T2 is None else [float(lget(np.asarray(T2, float), full(i))) for i in range(2)]
+            stf = np.array([lget(st, full(i)) for i in range(2)])
+            got = np.array([o[full(i)] for i in range(2)])
+            K = rate * np.array([[1, -1], [-1, 1.0]])
+            ref = ref_apply(stf, np.zeros_like(stf) + np.array([0, 0, 1.0]), K, [np.inf] * 2, t2, [0, 0], ta)
+            err = max(err, np.abs(ref - got).max())
+            sc = np.array(ex.X(ta, rate, T2=t2)(epg.StateMatrix(stf, density=1.0, check=False)).states)
+            err2 = max(err2, np.abs(sc - got).max())
         if err > 1e-9:
-            ctx.report("%s: result differs from the Bloch-McConnell solution by %.3g" % (what, err), {"probe": dict(p, what=what)},
-                       found_input=True, signature=sig)
+            ctx.report("%s: result differs from the Bloch-McConnell solution by %.3g" % (what, err), {"probe": p}, found_input=True, signature=sig)
+        elif err2 > 1e-9:
+            ctx.report("%s: result differs from the scalar runs X(tau, k_b) by %.3g" % (what, err2), {"probe": p}, found_input=True, signature=sig)
     # defective generator through the operator
     ctx.count(("probe", "defective"), nontrivial=True)
     sm = epg.StateMatrix([[[0, 0, 1]], [[1, 1, 0]]], density=[1, 0], check=False)
@@ -618,6 +732,7 @@ def rejection_cases(ctx):
         ("K.density != 0 (matrix)", lambda: ex.X(1.0, [[1, -2], [-1, 2]])(epg.StateMatrix(density=[1, 1])), RuntimeError),
         ("K.density != 0 (scalar rate, unequal densities)", lambda: ex.X(1.0, 0.5)(epg.StateMatrix(density=[1, 3])), RuntimeError),
         ("non-conserving (test-suite example)", lambda: ex.X(10, [[-10, 0], [10, 0]])(epg.StateMatrix([[[1, 1, 0]], [[1j, -1j, 0]]])), RuntimeError),
+        ("K.density != 0, single-compartment state broadcast to the compartments", lambda: ex.X(1.0, [[1, -2], [-1, 2]])(epg.StateMatrix()), RuntimeError),
         ("state with 3 compartments, operator with 2", lambda: ex.X(1.0, 0.5)(epg.StateMatrix(shape=(3,))), ValueError),
     ]
     accepted = [
@@ -660,6 +775,9 @@ def run(ctx):
         c = gen_apply_case(rng)
         try:
             op, pre, code, oshape, obs, mat = run_apply_case(c)
+        except ShapeDefect as e:
+            ctx.report("X(tau, khi, axis): %s" % e, {"case": c}, found_input=True, signature={"kind": "apply", "why": "operator-shape"})
+            continue
         except Exception as e:
             ctx.report("X with an injected matrix raised %s on a valid configuration: %s" % (type(e).__name__, str(e)[:200]), {"case": c},
                        found_input=True, signature={"raises": type(e).__name__, "kind": "apply"})
@@ -702,11 +820,26 @@ def run(ctx):
     for c, v in zip(meta, verdicts):
         if v is False:
             nfail += 1
-            if nfail <= 4:
+            why = None
+            if c["kind"] == "apply":
+                try:
+                    why = apply_oracle(c)
+                except Exception as e:
+                    why = "oracle raised %s: %s" % (type(e).__name__, str(e)[:120])
+            if why and nfail <= 4:
+                ctx.report(why, {"case": c}, found_input=True, signature={"oracle": "apply", "why": why.split(" at batch")[0][:60]})
+            elif nfail <= 4:
                 ctx.report("model Model/Exchange.v and implementation disagree (%s)" % c["kind"],
                            {"case": c, "theorem_or_correspondence": "C06 correspondence Model/Exchange.v vs epgpy/exchange.py"},
                            found_input=False, signature={"corr": c["kind"]})
     ctx.cov["correspondence_kinds"] = kinds
+
+    def khi_batched(c):
+        a = np.array(c["K"] if c["kind"] == "apply" else c["khi"])
+        return int(np.prod(a.shape)) > a.shape[-1] ** 2
+    ctx.cov["correspondence_batched_khi"] = {k: sum(1 for c in meta if c["kind"] == k and khi_batched(c)) for k in ("apply", "generator")}
+    ctx.cov["correspondence_khi_axis_not_last"] = sum(1 for c in meta if c["kind"] in ("apply", "generator") and khi_batched(c)
+                                                      and c["ax"] < np.array(c["K"] if c["kind"] == "apply" else c["khi"]).ndim - 2)
     ctx.cov["correspondence_disagreements"] = nfail
 
     # (b) oracle hypotheses: validation, not proof
@@ -715,9 +848,12 @@ def run(ctx):
     fails = 0
     nreal = 50 if quick else 800
     seqs = {}
+    nbk = nbig = 0
     for i in range(nreal):
         c = gen_real_case(rng)
         seqs[c["seq"]] = seqs.get(c["seq"], 0) + 1
+        nbk += int(c["khi"] is not None and np.array(c["khi"]).size > c["N"] ** 2)
+        nbig += int(len(c["stshape"]) > len(c["smshape"]))
         ctx.count(("real", c), nontrivial=True)
         try:
             r = check_real_case(ctx, c)
@@ -727,6 +863,8 @@ def run(ctx):
             fails += 1
             ctx.report(r[0], {"real_case": c}, found_input=True, signature={"oracle": r[1]})
     ctx.cov["oracle_runs"] = nreal
+    ctx.cov["oracle_batched_khi"] = nbk
+    ctx.cov["oracle_bigger_state"] = nbig
     ctx.cov["oracle_sequences"] = seqs
     boundary_probes(ctx)
     rejection_cases(ctx)
@@ -766,15 +904,23 @@ def replay(ctx, rp):
         return 1 if bad else 0
     if "case" in rp:
         c = rp["case"]
-        if c.get("kind") == "apply":
-            op, pre, code, oshape, obs, mat = run_apply_case(c)
-            t = apply_term(c, op, pre, code, oshape, obs, mat)
-        elif c.get("kind") == "generator":
-            t = generator_term(c, run_generator_case(c))
-        elif c.get("kind") == "guard":
-            t = guard_term(c, *run_guard_case(c))
-        else:
-            t = xm_term(c)
+        try:
+            if c.get("kind") == "apply":
+                why = apply_oracle(c)
+                if why:
+                    print("replay: VIOLATION reproduced: %s" % why)
+                    return 1
+                op, pre, code, oshape, obs, mat = run_apply_case(c)
+                t = apply_term(c, op, pre, code, oshape, obs, mat)
+            elif c.get("kind") == "generator":
+                t = generator_term(c, run_generator_case(c))
+            elif c.get("kind") == "guard":
+                t = guard_term(c, *run_guard_case(c))
+            else:
+                t = xm_term(c)
+        except Exception as e:
+            print("replay: VIOLATION reproduced: valid configuration raises %s: %s" % (type(e).__name__, str(e)[:200]))
+            return 1
         v, errs = ctx.run_bool_cases("replay", HEADER, [t], chunk=4)
         ctx.cleanup_cases()
         print("replay: model and implementation %s" % ("agree" if v[0] else "DISAGREE"))
